@@ -355,6 +355,29 @@ func fixedCases() []input {
 	big("tok65536mid", piece{"dport = 80 | dport = ", 1}, piece{"1", 65536}, piece{" | dport = 81", 1})
 	out[len(out)-1].Raw = true
 	big("chain", piece{"dport=80|", 300}, piece{"dport = 1", 1})
+	// the nesting limit must not depend on what stands beside the groups: n plain conditions before /
+	// behind / around a group nested d deep, and plain conditions interleaved with the nesting
+	for _, n := range []int{1, 2, 5, 600} {
+		seen := map[int]bool{}
+		for _, d := range []int{511, 512, 513, 512 + n - 1, 512 + n, 512 + n + 1} {
+			if seen[d] {
+				continue
+			}
+			seen[d] = true
+			op := []string{"&", "|"}[(n+d)%2]
+			tag := fmt.Sprintf("n%d-d%d", n, d)
+			big("sib-first-"+tag, piece{"dport=80" + op, n}, piece{"(", d}, piece{"dport=81", 1}, piece{")", d})
+			out[len(out)-1].Raw = true
+			big("group-first-"+tag, piece{"(", d}, piece{"dport=81", 1}, piece{")", d}, piece{op + "dport=80", n})
+			out[len(out)-1].Raw = true
+			big("sib-around-"+tag, piece{"dport=80|", n}, piece{"!(", d}, piece{"dport=81", 1}, piece{")", d}, piece{"&dport=82", n})
+			out[len(out)-1].Raw = true
+		}
+	}
+	for _, d := range []int{511, 512, 513, 600} {
+		big(fmt.Sprintf("interleaved-d%d", d), piece{"(dport=80&", d}, piece{"dport=81", 1}, piece{")", d})
+		out[len(out)-1].Raw = true
+	}
 	return out
 }
 
@@ -526,7 +549,7 @@ func run(raw json.RawMessage, o vhlib.Opts) (*vhlib.Case, error) {
 	if err := json.Unmarshal(raw, &in); err != nil {
 		return nil, err
 	}
-	c := &vhlib.Case{Tags: []string{in.Kind, in.Tag}}
+	c := &vhlib.Case{Tags: []string{in.Kind, tagFamily(in.Tag)}}
 	if in.Kind == "big" {
 		var sb strings.Builder
 		var ps []string
@@ -655,6 +678,16 @@ func run(raw json.RawMessage, o vhlib.Opts) (*vhlib.Case, error) {
 	}
 	c.Nontrivial = len(toks) >= 3
 	return c, nil
+}
+
+// tagFamily drops the parameters from a tag ("sib-first-n2-d514" -> "sib-first")
+func tagFamily(t string) string {
+	for _, p := range []string{"sib-first", "group-first", "sib-around", "interleaved"} {
+		if strings.HasPrefix(t, p) {
+			return p
+		}
+	}
+	return t
 }
 
 func main() { vhlib.Main(gen, run) }
